@@ -46,6 +46,9 @@ Inductive case :=
          (obs_chunks : list (list (Z * Z)))              (* chunk table observed per file (ChunkEntryForOffset walk) *)
          (view : option (list (path * onode)))           (* observed tree, [None] = the layer could not be opened *)
          (ops : list cop) (outs : list (option (rres * list ev)))
+| CLayers (datas : list (list bytes))                     (* per layer, the contents of its regular files *)
+          (reads : list (nat * nat * Z * Z * option bytes))   (* (layer, file, off, len, bytes returned / None = error) *)
+    (* several layers resolved through one layer.Resolver: a read of layer l depends on the contents of layer l only *)
 | CClean (name : string) (obs : path)                    (* cleanEntryName *)
 | CAttr (mode size : Z) (link : string) (maj mi nlink uid gid mtime : Z) (obs : fattr).   (* entryToAttr on arbitrary attributes *)
 
@@ -126,6 +129,13 @@ Definition case_ok (c : case) : bool :=
           && list_eqb out_eqb (snd (run L cempty (map (op_of L) ops))) outs
       | _, _ => false
       end
+  | CLayers datas reads =>
+      forallb (fun r => let '(l, f, off, len, out) := r in
+                 let data := nth f (nth l datas []) [] in
+                 match out with
+                 | Some d => bytes_eqb d (slice off (Z.min len (zlen data - off)) data)
+                 | None => false
+                 end) reads
   | CClean name obs => path_eqb (clean_name name) obs
   | CAttr mode size link maj mi nlink uid gid mtime obs =>
       fattr_eqb (fuse_attr mode size link maj mi nlink uid gid mtime) obs
